@@ -232,3 +232,110 @@ def alias_pairs(groups_by_agent: dict[int, "OrderedDict[str, dict]"]):
                     for name in index.get(c, ()):
                         out.add((i, name, j, name2))
     return out
+
+
+# ------------------------------------------------------------------------------------ wrapped agents, hidden state
+# (added for C01 round 3; everything above keeps its behaviour — c02/c05/c07/c08 import it)
+def unwrap(agent):
+    """(inner algorithm, wrapper or None): an agent wrapped by a class of agilerl.wrappers.agent
+    (AgentWrapper: RSNorm, …) is an agent too; its algorithm is `wrapper.agent`"""
+    try:
+        from agilerl.wrappers.agent import AgentWrapper
+    except Exception:  # pragma: no cover
+        return agent, None
+    if isinstance(agent, AgentWrapper):
+        return agent.__dict__["agent"], agent
+    return agent, None
+
+
+def tensordict_cells(td, cells: dict, path: str) -> bool:
+    """cells of a TensorDict-valued attribute (inspect_attributes skips those); False if not one"""
+    try:
+        from tensordict import is_tensor_collection
+        if not is_tensor_collection(td):
+            return False
+        for k, t in td.items(include_nested=True, leaves_only=True):
+            if isinstance(t, torch.Tensor):
+                cells[tensor_cell(t)] = (f"{path}[{k!r}]", tensor_value(t))
+        return True
+    except Exception:  # pragma: no cover
+        return False
+
+
+def _attr_group(name: str, v, ctor: bool) -> dict:
+    cells: dict = {}
+    if not tensordict_cells(v, cells, name):
+        walk(v, cells, name)
+    g = {"kind": classify(v, ctor), "cells": cells}
+    if is_immutable(v):
+        g["imm"] = repr(v)
+    return g
+
+
+def _wrapper_listed(wrapper) -> set:
+    """names of the wrapper's instance attributes that AgentWrapper.clone / copy_attributes look at"""
+    try:
+        from agilerl.algorithms.core.base import EvolvableAlgorithm
+        return set(EvolvableAlgorithm.inspect_attributes(wrapper).keys())
+    except Exception:  # pragma: no cover
+        return {n for n in vars(wrapper) if not (n.startswith("_") or n.endswith("_"))}
+
+
+def wrapper_groups(wrapper) -> "OrderedDict[str, dict]":
+    """`wrap:<name>` groups: every instance attribute of the wrapper object that inspect_attributes
+    lists, except the wrapped algorithm itself (obs_rms, norm_obs_keys, the saved bound methods, …).
+    AgentWrapper.clone builds the new wrapper from the attributes named like constructor arguments and
+    then runs the very same `copy_attributes`, so the kind tokens / rule table of the algorithm's
+    attributes apply."""
+    groups: "OrderedDict[str, dict]" = OrderedDict()
+    try:
+        ctor_params = set(inspect.signature(type(wrapper).__init__).parameters.keys())
+    except Exception:  # pragma: no cover
+        ctor_params = set()
+    listed = _wrapper_listed(wrapper)
+    for name in sorted(vars(wrapper)):
+        if name == "agent" or name not in listed:
+            continue
+        groups["wrap:" + name] = _attr_group(name, vars(wrapper)[name], name in ctor_params)
+    return groups
+
+
+def family_groups(agent) -> "OrderedDict[str, dict]":
+    """agent_groups of the algorithm + wrap:* groups of its wrapper (if any)"""
+    inner, wrapper = unwrap(agent)
+    groups = agent_groups(inner)
+    if wrapper is not None:
+        groups.update(wrapper_groups(wrapper))
+    return groups
+
+
+def hidden_groups(agent) -> "OrderedDict[str, dict]":
+    """`hid:<name>` (algorithm) / `hid:wrap.<name>` (wrapper): instance attributes that neither
+    `evolvable_attributes()` nor `inspect_attributes()` lists (names with a leading / trailing
+    underscore, TensorDict-valued attributes) — state that clone() / copy_attributes never look at.
+    Measured so that it is not invisible: the harness classifies each as carried over by value or
+    legitimately fresh."""
+    from agilerl.algorithms.core.base import EvolvableAlgorithm
+    inner, wrapper = unwrap(agent)
+    listed = set(inner.evolvable_attributes().keys()) | set(EvolvableAlgorithm.inspect_attributes(inner).keys())
+    groups: "OrderedDict[str, dict]" = OrderedDict()
+    for name in sorted(vars(inner)):
+        if name in listed or name.startswith("__"):
+            continue
+        groups["hid:" + name] = _attr_group(name, vars(inner)[name], False)
+    if wrapper is not None:
+        wl = _wrapper_listed(wrapper)
+        for name in sorted(vars(wrapper)):
+            if name == "agent" or name in wl or name.startswith("__"):
+                continue
+            groups["hid:wrap." + name] = _attr_group(name, vars(wrapper)[name], False)
+    return groups
+
+
+def describe(g: dict | None) -> str:
+    """short human-readable rendering of a group for messages"""
+    if g is None:
+        return "<absent>"
+    if "imm" in g:
+        return g["imm"][:60]
+    return f"{g['kind']} with {len(g['cells'])} cells {group_value(g)}"
